@@ -248,6 +248,53 @@ Proof.
 Qed.
 Print Assumptions C14_restart_safe.
 
+(* ---- the same two theorems under the weaker side condition [band_weak] ---------------------------------------------------
+   [band_clear] demands that a feeder that has just left its submission window (MaxNonce <= left <= 2*MaxNonce-2) has NO item
+   inside the replay window. [band_weak] (implied by it: band_clear_single, band_single_weak) only demands, for such a feeder,
+   one of
+     (a) the replay starts at a recorded validator-set change (then none of its items is replayed: the forced block is replayed
+         without messages and no item was accepted for the force-sealed round afterwards), or
+     (b) its items inside the replay window all lie in ONE block ([band_single]), or
+     (c) its items inside the replay window that lie before its last item block carry, summed per item, no more than the 2/3
+         threshold of voting power ([wsum], [exceeds]).
+   The replay then sees a suffix of the round's items on a fresh worker. Under (b)/(c) that suffix cannot finalize before the last
+   item block (c: the aggregator's reported power is bounded by the sum, whatever the calculator does), and whatever the last item
+   block does (even finalize), the worker is dropped by the seal of that block or by the seal that closes the round, so the
+   rebuilt memory has no worker for the feeder, like the live one ([block_band], [block_band2], [replay_all_band],
+   [replay_all_band2], last clause of [recache_window]). What remains outside: items of the band feeder in at least two replayed
+   blocks AND more than the threshold power already reported before the last of them (the live node did not finalize on them
+   only because its calculator had not confirmed a price) - see design/C14.md 5b. *)
+Theorem C14_restart_safe_iff_weak : forall p vals next0 ops vu,
+  params_ok2 p -> forallb plain ops = true ->
+  let st := fst (run p (init_state vals next0) (ops ++ [OEnd vu])) in
+  band_weak p st ->
+  (synced p st <-> window_open p st).
+Proof.
+  intros p vals next0 ops vu Hok2 Hp st Hband. pose proof Hok2 as [Hok _].
+  assert (Hp1 : forallb plain (ops ++ [OEnd vu]) = true) by (rewrite forallb_app, Hp; reflexivity).
+  destruct (init_LIVE p vals next0 Hok) as [HL0 HV0].
+  destruct (run_LIVE p Hok (ops ++ [OEnd vu]) (init_state vals next0) [] Hp1 HL0 HV0) as [HL _].
+  apply synced_iff_window_open_weak; try assumption.
+  - apply C14_round_table_closed_form; assumption.
+  - apply run_safe; [assumption | apply init_safe].
+  - apply run_IV; try assumption. apply init_IV.
+Qed.
+Print Assumptions C14_restart_safe_iff_weak.
+
+Theorem C14_restart_safe_weak : forall p vals next0 ops1 vu ops2,
+  params_ok2 p -> forallb plain ops1 = true -> forallb plain ops2 = true ->
+  let st := fst (run p (init_state vals next0) (ops1 ++ [OEnd vu])) in
+  band_weak p st -> window_open p st ->
+  observe (run p (init_state vals next0) ((ops1 ++ [OEnd vu]) ++ ORestart :: ops2)) =
+  observe (run p (init_state vals next0) ((ops1 ++ [OEnd vu]) ++ ops2)).
+Proof.
+  intros p vals next0 ops1 vu ops2 Hok2 H1 H2 st Hband Hwo. pose proof Hok2 as [[_ [Hmn _]] _].
+  assert (Hp1 : forallb plain (ops1 ++ [OEnd vu]) = true) by (rewrite forallb_app, H1; reflexivity).
+  apply single_restart; try assumption; [lia | apply init_safe|].
+  apply (C14_restart_safe_iff_weak p vals next0 ops1 vu Hok2 H1 Hband). exact Hwo.
+Qed.
+Print Assumptions C14_restart_safe_weak.
+
 (* ---- non-vacuity ----------------------------------------------------------------------------------- *)
 (* a restart in the MIDDLE of a submission window, with a partial aggregation in memory, that is restart-safe:
    one message per validator so far, nothing finalized, no validator-set change in the window *)
@@ -307,6 +354,24 @@ Proof. vm_compute. split; reflexivity. Qed.
 Example C14_iff_hyps_final :
   thm_hyps_b wp (fst (run wp (init_state wv wn) w2a)) = true /\ thm_open_b wp (fst (run wp (init_state wv wn) w2a)) = false.
 Proof. vm_compute. split; reflexivity. Qed.
+(* [band_single] / [band_weak] are strictly weaker than [band_clear] on reachable states: feeder 1 (interval 6, MaxNonce 3) has left
+   the window of its round 7 (left = 3 resp. 4) and the single block with an item of that round is still replayed (b1a, b2a): not
+   [band_clear], but [band_single], every in-window round open, and indeed synced; b3a: items in BOTH replayed blocks, from the
+   validator with power 100 of 201: not [band_single], but [band_weak], and synced *)
+Definition b1a := ends 8 ++ [OTx (mkTx 0 1 1 7 [(1, 100)]); OEnd None; OEnd None].
+Definition b2a := ends 9 ++ [OTx (mkTx 0 1 1 7 [(1, 100)]); OEnd None; OEnd None].
+Definition b3a := ends 8 ++ [OTx (mkTx 1 1 1 7 [(1, 100)]); OEnd None; OTx (mkTx 1 1 2 7 [(2, 101)]); OEnd None].
+Example C14_iff_hyps_band_single :
+  band_clear_b wp (fst (run wp (init_state wv wn) b1a)) = false /\ band_single_b wp (fst (run wp (init_state wv wn) b1a)) = true /\
+  window_open_b wp (fst (run wp (init_state wv wn) b1a)) = true /\ synced_b wp (fst (run wp (init_state wv wn) b1a)) = true /\
+  band_clear_b wp (fst (run wp (init_state wv wn) b2a)) = false /\ band_single_b wp (fst (run wp (init_state wv wn) b2a)) = true /\
+  window_open_b wp (fst (run wp (init_state wv wn) b2a)) = true /\ synced_b wp (fst (run wp (init_state wv wn) b2a)) = true.
+Proof. vm_compute. repeat split; reflexivity. Qed.
+Example C14_iff_hyps_band_weak :
+  band_single_b wp (fst (run wp (init_state wv wn) b3a)) = false /\ band_weak_b wp (fst (run wp (init_state wv wn) b3a)) = true /\
+  window_open_b wp (fst (run wp (init_state wv wn) b3a)) = true /\ synced_b wp (fst (run wp (init_state wv wn) b3a)) = true /\
+  map (fun e => (fst e, length (snd e))) (s_msgs (st_store (fst (run wp (init_state wv wn) b3a)))) = [(9, 1%nat); (10, 1%nat)].
+Proof. vm_compute. repeat split; reflexivity. Qed.
 (* a validator-set change inside the window (w3a): hypotheses hold, the force-sealed round counts as fine, and it is synced *)
 Example C14_iff_hyps_valset :
   thm_hyps_b wp (fst (run wp (init_state wv wn) w3a)) = true /\ thm_open_b wp (fst (run wp (init_state wv wn) w3a)) = true /\
